@@ -666,9 +666,9 @@ TRANSFORM_FLAG_REQUIRES = {
 }
 
 
-def r10_transform_flags(ck, P):
+def r10_transform_flags(ck, P, rid='C08-R10'):
     """the transform classification the fast paths and affine fetchers rely on (they never divide by w, never look at the off-diagonal ...)"""
-    R = ck.rule('C08-R10', 'each transform classification flag is set only under the matrix tests its consumers assume: AFFINE needs the bottom row (0, 0, 1.0) exactly - the affine fetchers and scaled fast paths never divide by w - SCALE additionally a zero off-diagonal, the ROTATE flags their exact +-1.0 entries, Y_UNIT_ZERO m[1][0] == 0, X_UNIT_POSITIVE m[0][0] > 0', floor=7)
+    R = ck.rule(rid, 'each transform classification flag is set only under the matrix tests its consumers assume: AFFINE needs the bottom row (0, 0, 1.0) exactly - the affine fetchers and scaled fast paths never divide by w - SCALE additionally a zero off-diagonal, the ROTATE flags their exact +-1.0 entries, Y_UNIT_ZERO m[1][0] == 0, X_UNIT_POSITIVE m[0][0] > 0', floor=7)
     C = __import__('pxv.consts', fromlist=['x']).fast_path_flags()
     f = None
     for g in P.functions():
@@ -707,7 +707,48 @@ def r10_transform_flags(ck, P):
                     if len(q) >= 3 and q[-3] == 'pixman_transform.matrix':
                         pr = pred if i == 0 else {'sgt': 'slt', 'slt': 'sgt', 'sge': 'sle', 'sle': 'sge'}.get(pred, pred)
                         have.add((int(q[-2].strip('[]')), int(q[-1].strip('[]')), pr, int(k[1])))
-            # local copies (m01 = matrix[0][1]) compared later: the loaded value may be tested in another block through the same SSA value
+            # equalities between entries (m01 == -m10) count through the values they imply: solve the linear system of all
+            # equality guards over the matrix entries
+            import sympy as _sp
+            eqs = []; syms = {}
+            def mform(o, d=0):
+                y = f.v(f.strip_casts(o)) if o[0] == 'v' else None
+                if o[0] == 'c':
+                    return _sp.Integer(int(o[1]))
+                if y is None or d > 6:
+                    return None
+                if y.op == 'load':
+                    q = list(f.path(y.a[0])[1])
+                    if len(q) >= 3 and q[-3] == 'pixman_transform.matrix':
+                        key = (int(q[-2].strip('[]')), int(q[-1].strip('[]')))
+                        return syms.setdefault(key, _sp.Symbol('m%d%d' % key))
+                    return None
+                if y.op in ('add', 'sub'):
+                    a_, b_ = mform(y.a[0], d + 1), mform(y.a[1], d + 1)
+                    return None if a_ is None or b_ is None else (a_ + b_ if y.op == 'add' else a_ - b_)
+                if y.op in ('sext', 'zext', 'trunc'):
+                    return mform(y.a[0], d + 1)
+                return None
+            for t, s_ in f.guard_edges(x.bb.id):
+                if t.op != 'br' or not t.a:
+                    continue
+                c, pred, ops = f.cond(t.a[0])
+                if c is None or c.op != 'icmp':
+                    continue
+                if t.d['succ'][0] != s_:
+                    pred = f.INV.get(pred, pred)
+                if pred != 'eq':
+                    continue
+                a_, b_ = mform(ops[0]), mform(ops[1])
+                if a_ is not None and b_ is not None and (a_ - b_).free_symbols:
+                    eqs.append(a_ - b_)
+            if eqs:
+                sol = _sp.solve(eqs, list(syms.values()), dict=True)
+                if len(sol) == 1:
+                    for key, sy in syms.items():
+                        v_ = sol[0].get(sy)
+                        if v_ is not None and v_.is_Integer:
+                            have.add((key[0], key[1], 'eq', int(v_)))
             need = TRANSFORM_FLAG_REQUIRES[name]
             missing = need - have
             seen.add(name)
@@ -1228,3 +1269,41 @@ def r15_mask_stride_follows_pipeline(ck, P, rid='C08-R15'):
                     ck.violation(R, g.name, 'mask read at %s' % x.loc(), '%s serves both pipelines (parameter %s is passed as 0 and as 1) but reads mask[i] as one word per pixel whatever the pipeline: in the float pipeline the mask scanline holds four floats per pixel, so the test looks at a channel of pixel i/4 - with an a8 mask (r = g = b = 0.0) three of every four source pixels are skipped and composited as zero' % (g.name, g.params[k][0] or k), x.loc())
     if n == 0:
         ck.incomplete(R, 'no mask read in a routine shared by both pipelines found')
+
+
+def r16_skip_only_on_zero_mask_word(ck, P, rid='C01-R10'):
+    """T-GRD: a source fetcher may leave a pixel unfetched only when the mask value of that pixel is zero as a whole: with a
+    component-alpha mask the combiners multiply the source by every channel of the mask, not just by its alpha byte."""
+    R = ck.rule(rid, 'wherever a source fetcher (gradient scanlines, per-pixel bits fetchers, C fast-path fetchers) decides from the mask scanline whether to produce a pixel, it compares the whole mask word with zero: a test of part of the word (its alpha byte, one channel) skips pixels that a component-alpha mask still lets through', floor=8)
+    n = 0
+    for g in P.functions():
+        mp = [i for i, (pn, pt) in enumerate(g.params) if pt == 'i32*' and pn == 'mask']
+        if not mp or not any('iter' in (pn or '') for pn, pt in g.params):
+            continue
+        for x in g.insts():
+            if x.op != 'load' or x.ty != 'i32':
+                continue
+            r = g.root(g.path(x.a[0]))
+            if not ((r[0] == 'arg' and r[1] in mp) or (r[0] == 'phi' and any(rr == ('arg', m) for m in mp for rr in common.roots(g, x.a[0])))):
+                continue
+            # follow the loaded word to the comparisons it decides
+            seen = set(); work = [(x, False)]
+            while work:
+                y, partial = work.pop()
+                for z in g.users(y):
+                    if (z.i, partial) in seen:
+                        continue
+                    seen.add((z.i, partial))
+                    if z.op == 'icmp' and any(a[0] == 'c' and int(a[1]) == 0 for a in z.a) and any(t.op == 'br' for t in g.users(z)):
+                        n += 1; ck.saw(g)
+                        where = '%s/%s: mask test at %s' % (g.unit.name, g.name, z.loc())
+                        if partial:
+                            ck.violation(R, g.name, 'mask test at %s' % z.loc(), '%s decides whether to produce a source pixel from part of the mask word (a shifted / masked / truncated value) instead of the whole word: a component-alpha mask pixel whose tested part is zero but whose other channels are not (e.g. 0x00ffffff) gets no source pixel, and the combiner multiplies a stale value by the mask' % g.name, z.loc())
+                        else:
+                            ck.ok(R, where)
+                    elif z.op in ('lshr', 'ashr', 'and', 'trunc', 'shl'):
+                        work.append((z, True))
+                    elif z.op in ('zext', 'sext', 'phi'):
+                        work.append((z, partial))
+    if n == 0:
+        ck.incomplete(R, 'no mask test found in any fetcher')
